@@ -1,10 +1,11 @@
 #!/bin/bash
-# usage: confirm_seeded.sh <Cnn> <mK> [patchfile]   - confirms one sub-agent mutant against the current /repo HEAD and
+# usage: [SEED_SRC=/tmp/mut2/out SEED_TAG=r2] confirm_seeded.sh <Cnn> <mK> [patchfile]   - confirms one sub-agent mutant against the current /repo HEAD and
 # records it under /verif/seeded/<Cnn>-<mK>/ (patch.diff, demo, meta.json). Scratch worktree under /tmp, removed afterwards.
 P=$1; M=$2
-SRC=/tmp/mut/out/$P/$M
+SRC=${SEED_SRC:-/tmp/mut/out}/$P/$M
 PATCH=${3:-$SRC/patch.diff}
-DST=/verif/seeded/$P-$M
+DST=/verif/seeded/$P-${SEED_TAG}$M
+BIN=${MQTTCHECK_BIN:-/verif/bin/mqttcheck}
 export GOFLAGS=-mod=mod GOPROXY=off GOSUMDB=off GOTOOLCHAIN=local; unset GOWORK
 W=$(mktemp -d /tmp/seedconf.XXXXXX)/wt
 git -C /repo worktree add -q --detach $W HEAD || exit 2
@@ -21,7 +22,7 @@ if ! go build ./... 2>/tmp/seedbuild.$$; then echo "$P-$M: DOES-NOT-BUILD $(head
 rm -f /tmp/seedbuild.$$
 git diff > /tmp/seedpatch.$$
 # baseline (serialised: the suite binds a fixed port)
-base=$(flock /tmp/seed-baseline.lock /verif/scripts/baseline.sh $W 2>&1 | grep "^baseline:" | tail -1)
+base=$(flock /tmp/mut2/baseline.lock /verif/scripts/baseline.sh $W 2>&1 | grep "^baseline:" | tail -1)
 # demo
 place=$(head -1 $SRC/demo_test.go | sed -n 's#^// place at: *##p' | tr -d ' \r')
 [ -z "$place" ] && place=$(python3 -c "import json;print(json.load(open('$SRC/meta.json')).get('demo_place',''))")
@@ -39,7 +40,7 @@ git apply /tmp/seedpatch.$$
 caught=""
 mkdir -p $(dirname $W)/v && cp /verif/known-findings.txt $(dirname $W)/v/
 for prop in C01 C02 C03 C04 C05 C06 C07 C08 C09 C10 C11 C12 C13 C14 C15 C16 C17 C18 C19 C20; do
-  out=$(/verif/bin/mqttcheck -property $prop -repo $W -verif $(dirname $W)/v 2>&1)
+  out=$($BIN -property $prop -repo $W -verif $(dirname $W)/v 2>&1)
   if echo "$out" | grep -q '^VIOLATION'; then
     keys=$(echo "$out" | grep '^  violated:' | sed 's/^  violated: //' | head -3 | paste -sd';')
     caught="$caught $prop[$keys]"
@@ -51,9 +52,11 @@ cp $SRC/demo_test.go $DST/demo_test.go
 python3 - "$P" "$M" "$SRC" "$DST" "$base" "$with" "$without" "$caught" "$place" "$(git -C /repo rev-parse --short HEAD)" <<'PY'
 import json,sys
 P,M,SRC,DST,base,withp,without,caught,place,head=sys.argv[1:11]
+import os
+TAG=os.environ.get("SEED_TAG","")
 src=json.load(open(SRC+'/meta.json'))
 meta={
- "property":P, "mutant":M, "origin":"independent sub-agent given only the property text and its own scratch worktree",
+ "property":P, "mutant":TAG+M, "origin":"independent sub-agent given only the property text and its own scratch worktree",
  "summary":src.get("summary"), "breaks":src.get("breaks"), "needs":src.get("needs"), "files":src.get("files"),
  "repo_head_confirmed_at":head,
  "confirmed":{
